@@ -749,6 +749,9 @@ Proof.
   intros H. destruct g as [|a g]; [reflexivity|]. exfalso. apply H. now apply kind_of_shared.
 Qed.
 
+Lemma kind_of_nil_ns f : kind_of [] f <> KShared.
+Proof. rewrite kind_of_plain. destruct (starts_dollar f); discriminate. Qed.
+
 Record NInv (k : kind) (get : getter) (p : list level) (x : node) : Prop := {
   ni_pure : match k with
             | KShared => n_clients x = [] /\ grp [] x = []
@@ -806,7 +809,7 @@ Proof.
     + subst g. rewrite aget_aset.
       destruct (skey_eqb_spec (c', s_share s, s_filter s) (c, s_share s, s_filter s)) as [E1|E1].
       * injection E1 as ->. now rewrite str_eqb_refl.
-      * destruct (str_eqb_spec c' c) as [E2|E2]; [congruence|]. now apply H6.
+      * destruct (str_eqb_spec c' c) as [E2|E2]; [subst c'; now elim E1|]. now apply H6.
     + destruct (skey_eqb_spec (c', g, s_filter s) (c, s_share s, s_filter s)) as [E1|E1]; [congruence|].
       now apply H6.
 Qed.
@@ -818,7 +821,7 @@ Proof.
   intros [H1 H2 H4 H5 H6] Hk Hq.
   assert (Hobs : forall g', obs g' (leave_res c g x) = if str_eqb g' g then adel c (obs g' x) else obs g' x).
   { intros g'. destruct g as [|a g0].
-    - assert (Hs : n_shared x = []) by (destruct k; [exact H1|exact H1|discriminate Hk]).
+    - assert (Hs : n_shared x = []) by (destruct k; [exact H1|exact H1|now apply kind_of_nil_ns in Hk]).
       destruct (leave_res_plain c x Hs) as [Hc' Hs'].
       destruct g' as [|b g1]; cbn [str_eqb].
       + now rewrite !obs_nil.
@@ -831,15 +834,15 @@ Proof.
       + rewrite !obs_ne by discriminate. apply Hgr. }
   constructor.
   - destruct g as [|a g0].
-    + assert (Hs : n_shared x = []) by (destruct k; [exact H1|exact H1|discriminate Hk]).
+    + assert (Hs : n_shared x = []) by (destruct k; [exact H1|exact H1|now apply kind_of_nil_ns in Hk]).
       destruct (leave_res_plain c x Hs) as [_ Hs'].
-      destruct k; [exact Hs'|exact Hs'|discriminate Hk].
+      destruct k; [exact Hs'|exact Hs'|now apply kind_of_nil_ns in Hk].
     + assert (Hne : a :: g0 <> []) by discriminate.
       rewrite (kind_of_shared _ f Hne) in Hk. subst k. destruct H1 as [Hc Hg].
       destruct (leave_res_group c (a :: g0) x Hne Hc H2) as (Hc' & _ & Hgr).
       split; [exact Hc'|]. rewrite Hgr. cbn [str_eqb]. exact Hg.
   - destruct g as [|a g0].
-    + assert (Hs : n_shared x = []) by (destruct k; [exact H1|exact H1|discriminate Hk]).
+    + assert (Hs : n_shared x = []) by (destruct k; [exact H1|exact H1|now apply kind_of_nil_ns in Hk]).
       destruct (leave_res_plain c x Hs) as [_ Hs']. rewrite Hs'. constructor.
     + assert (Hne : a :: g0 <> []) by discriminate.
       rewrite (kind_of_shared _ f Hne) in Hk. subst k. destruct H1 as [Hc Hg].
@@ -853,6 +856,6 @@ Proof.
     + subst g'. rewrite aget_adel by apply H4.
       destruct (skey_eqb_spec (c', g, f) (c, g, f)) as [E1|E1].
       * injection E1 as ->. now rewrite str_eqb_refl.
-      * destruct (str_eqb_spec c' c) as [E2|E2]; [congruence|]. now apply H6.
+      * destruct (str_eqb_spec c' c) as [E2|E2]; [subst c'; now elim E1|]. now apply H6.
     + destruct (skey_eqb_spec (c', g', f) (c, g, f)) as [E1|E1]; [congruence|]. now apply H6.
 Qed.
